@@ -467,6 +467,27 @@ pub mod ecma {
             pub fn as_ident(&self) -> Option<&Ident> { if let Expr::Ident(a) = self { Some(a) } else { None } }
             pub fn as_call(&self) -> Option<&CallExpr> { if let Expr::Call(a) = self { Some(a) } else { None } }
             pub fn as_object(&self) -> Option<&ObjectLit> { if let Expr::Object(a) = self { Some(a) } else { None } }
+            // the `is_*` predicates swc_ecma_ast generates for every variant (real: `#[ast_node]` / `is_macro::Is`)
+            pub fn is_this(&self) -> bool { matches!(self, Expr::This(..)) }
+            pub fn is_array(&self) -> bool { matches!(self, Expr::Array(..)) }
+            pub fn is_object(&self) -> bool { matches!(self, Expr::Object(..)) }
+            pub fn is_fn_expr(&self) -> bool { matches!(self, Expr::Fn(..)) }
+            pub fn is_unary(&self) -> bool { matches!(self, Expr::Unary(..)) }
+            pub fn is_bin(&self) -> bool { matches!(self, Expr::Bin(..)) }
+            pub fn is_assign(&self) -> bool { matches!(self, Expr::Assign(..)) }
+            pub fn is_member(&self) -> bool { matches!(self, Expr::Member(..)) }
+            pub fn is_cond(&self) -> bool { matches!(self, Expr::Cond(..)) }
+            pub fn is_call(&self) -> bool { matches!(self, Expr::Call(..)) }
+            pub fn is_ident(&self) -> bool { matches!(self, Expr::Ident(..)) }
+            pub fn is_arrow(&self) -> bool { matches!(self, Expr::Arrow(..)) }
+            pub fn is_paren(&self) -> bool { matches!(self, Expr::Paren(..)) }
+            pub fn is_jsx_element(&self) -> bool { matches!(self, Expr::JSXElement(..)) }
+            pub fn is_jsx_fragment(&self) -> bool { matches!(self, Expr::JSXFragment(..)) }
+            pub fn is_invalid(&self) -> bool { matches!(self, Expr::Invalid(..)) }
+            pub fn as_member(&self) -> Option<&MemberExpr> { if let Expr::Member(a) = self { Some(a) } else { None } }
+            pub fn as_arrow(&self) -> Option<&ArrowExpr> { if let Expr::Arrow(a) = self { Some(a) } else { None } }
+            pub fn as_bin(&self) -> Option<&BinExpr> { if let Expr::Bin(a) = self { Some(a) } else { None } }
+            pub fn as_unary(&self) -> Option<&UnaryExpr> { if let Expr::Unary(a) = self { Some(a) } else { None } }
         }
 
         // ---------------- object properties ----------------
